@@ -18,7 +18,7 @@ META = {
 RULE = ("cases = all token sequences <= L over the splitter alphabet, random Unicode garbage, prefixes/corruptions of grammar "
         "derivations, size-scaled families; non-trivial = the parse produced >= 1 failed block, or the text has >= 1000 lines, "
         "or brace nesting >= 100; distinct = distinct text (families: name and size)")
-ASSUMPTIONS = ["step budget = 400 repository function entries per input character + 20000", "sys.monitoring RAISE events attribute BlockAbortedException to its origin frame"]
+ASSUMPTIONS = ["CPU budget = 20 CPU-seconds + 1 s per 2000 characters per parse (process CPU time, ITIMER_VIRTUAL)", "step budget = 400 repository function entries per input character + 20000", "sys.monitoring RAISE events attribute BlockAbortedException to its origin frame"]
 MIN = {"escape_parse": (100000, 1000000), "escape_write": (100000, 1000000), "abort_pairing": (100000, 1000000),
        "failed_block_shape": (10000, 100000), "size_family": (40, 80)}
 
@@ -101,6 +101,10 @@ def fam_text(name, n):
         return "\\\n" * n + "@a{k}"
     if name == "string_refs":
         return "".join("@string{s%d = {v%d}}\n" % (i, i) for i in range(n)) + "".join("@a{k%d, t = s%d}\n" % (i, i) for i in range(n))
+    if name == "at_word_runs":
+        return "% contact: admin@" + "w" * min(n // 20, 400) + ".example.org\n@a{k, t = {x}}\n" + "@" + "x_" * 30 + " \n"
+    if name == "at_dotted_words":
+        return ("see user@" + "sub-domain." * 8 + "org and @" + "ab:" * 12 + "z\n") * max(1, min(n // 1000, 5)) + "@a{k}"
     if name == "string_chain":
         return "".join("@string{s%d = s%d}\n" % (i, i + 1) for i in range(n)) + "@string{s%d = {end}}\n@a{k, t = s0, u = s%d}\n" % (n, n // 2)
     if name == "string_cycle":
@@ -117,7 +121,7 @@ FAMILIES = ["blank_lines", "blank_lines_then_entry", "crlf_blank_lines", "commen
             "entries_one_line", "duplicate_entries", "fields", "dup_fields", "nest_value", "nest_value_open", "nest_comment",
             "nest_preamble", "nest_quote", "close_braces", "long_line", "long_free_line", "unterminated_openers",
             "unterminated_openers_sameline", "unterminated_strings", "unterminated_comments", "quotes", "commas", "equals",
-            "ats", "backslash_lines", "string_refs", "string_chain", "string_cycle", "eof_in_constructs"]
+            "ats", "backslash_lines", "string_refs", "string_chain", "string_cycle", "at_word_runs", "at_dotted_words", "eof_in_constructs"]
 QUADRATIC = {"duplicate_entries", "unterminated_openers_sameline"}   # O(n^2) work inside the library: capped sizes
 
 
@@ -174,7 +178,23 @@ def refgraph(r):
     return "\n".join(blocks) + "\n"
 
 
+class CpuBudgetExceeded(BaseException):
+    pass
+
+
+def _on_vtalrm(signum, frame):
+    raise CpuBudgetExceeded("CPU-time budget of this process exceeded inside one call")
+
+
+def cpu_budget(nchars):
+    """20 CPU-seconds + 1 s per 2000 characters: about 100x the normal cost; CPU time of this process,
+    not wall-clock, so machine load cannot trip it (C-level loops such as regex backtracking make no
+    Python calls, so the step budget cannot see them; the re engine does poll for signals)."""
+    return 20.0 + nchars / 2000.0
+
+
 def check(case, ctx):
+    import signal
     import bibtexparser
     from bibtexparser.library import Library
     from bibtexparser.exceptions import BlockAbortedException
@@ -187,16 +207,19 @@ def check(case, ctx):
     # -- parse under the escape monitor and the step budget
     TRACER.reset_scan()
     TRACER.budget = 400 * len(text) + 20000 if TRACER.on else None
+    signal.signal(signal.SIGVTALRM, _on_vtalrm)
+    signal.setitimer(signal.ITIMER_VIRTUAL, cpu_budget(len(text)))
     try:
         st, lib = sp.escape(lambda: bibtexparser.parse_string(text))
     finally:
+        signal.setitimer(signal.ITIMER_VIRTUAL, 0)
         TRACER.budget = None
     ctx.ran()
     ctx.mon("escape_parse")
     aborts, steps, depth = TRACER.aborts, TRACER.steps, TRACER.next_mark_maxdepth
     if st == "raise":
         et = lib.split(":")[0]
-        kind = "no-progress" if et == "StepBudgetExceeded" else "parse-raised"
+        kind = "no-progress" if et in ("StepBudgetExceeded", "CpuBudgetExceeded") else "parse-raised"
         return [Violation(kind, f"C01:{kind}:{et}:{tag}", dict(error=lib, text=text[:300], chars=len(text), case=case if fam else None))]
     if not isinstance(lib, Library):
         return [Violation("not-a-library", f"C01:not-a-library:{tag}", dict(got=type(lib).__name__, text=text[:300]))]
